@@ -389,12 +389,12 @@ func strictSigned(v *valset, addr util.Uint160, h *block.Header) bool {
 // ---- observation of a node --------------------------------------------------------------
 
 type snap struct {
-	bh, hh     uint32
-	tip, htip  util.Uint256
-	root       util.Uint256
-	pool       []util.Uint256
-	db         map[string]string
-	dbDigest   string
+	bh, hh    uint32
+	tip, htip util.Uint256
+	root      util.Uint256
+	pool      []util.Uint256
+	db        map[string]string
+	dbDigest  string
 }
 
 func (c *chainT) snapshot() *snap {
